@@ -173,16 +173,26 @@ def _required_cfi_directives(
     results: List[_auxdata.CFIDirectiveType] = []
     procedure_directives: List[_auxdata.CFIDirectiveType] = []
     for _, directives in sorted(displacement_map.items()):
+        # The directives that follow a .cfi_startproc at the same offset set
+        # up the initial state of the procedure; they do not describe the
+        # block's instructions and are needed by the rest of the procedure.
+        in_initial_state = False
         for directive in directives:
             append_to = procedure_directives or results
             if directive[0] == ".cfi_startproc":
                 procedure_directives.append(directive)
+                in_initial_state = True
             elif directive[0] == ".cfi_endproc":
                 append_to.append(directive)
                 procedure_directives.clear()
-            elif directive[0] in (
-                ".cfi_remember_state",
-                ".cfi_restore_state",
+                in_initial_state = False
+            elif (
+                directive[0]
+                in (
+                    ".cfi_remember_state",
+                    ".cfi_restore_state",
+                )
+                or in_initial_state
             ):
                 append_to.append(directive)
 
